@@ -2413,11 +2413,6 @@ package sftp
 //@   requires connOK(c)
 //@   assert before call (*Client).setstat#1: arg1 == path && arg2 == sshFileXferAttrUIDGID
 
-//@ func (*Client).Chtimes
-//@   property C05, C17
-//@   requires connOK(c)
-//@   assert before call (*Client).setstat#1: arg1 == path && arg2 == sshFileXferAttrACmodTime
-
 //@ func newFileOpenFlags
 //@   property C10
 //@   function
@@ -2582,3 +2577,26 @@ package sftp
 //@   requires s != nil
 //@   ensures result == nil && s.workDir == cleanPath(workDir)
 
+
+//@ ghost var t1 int64
+//@ ghost var t2 int64
+
+//@ func lsFormatID
+//@   property C17
+//@   function
+
+//@ func lsLinksUIDGID
+//@   property C17
+//@   requires fi != nil
+//@   assert before call lsFormatID#1: arg0 == sys.Uid
+//@   assert before call lsFormatID#2: arg0 == sys.Gid
+// (long name: the owner column is rendered from st_uid and the group column from st_gid of the same stat record)
+
+//@ func (*Client).Chtimes
+//@   property C05, C17
+//@   requires connOK(c)
+//@   update after call (time.Time).Unix#1: ghost.t1 = ret
+//@   update after call (time.Time).Unix#2: ghost.t2 = ret
+//@   assert before call (*Client).setstat#1: arg1 == path && arg2 == sshFileXferAttrACmodTime && attrs.Atime == uint32(ghost.t1) && attrs.Mtime == uint32(ghost.t2)
+// (the first word of the time pair is the access time, the second the modification time, as in the draft's ATTRS block;
+//  the two Unix() calls are those of atime and mtime in this order)
